@@ -114,6 +114,13 @@ def gen_new(w, r, kinds=None):
             if pool and r.random() < 0.6:
                 k = r.randrange(1, min(3, len(pool)) + 1)
                 kids[field] = r.sample(pool, k)
+        if kids and r.random() < w.cfg.get("p_wrapper_arg", 0.2):
+            # hand over another owner's whole collection: Module(sections=other.sections)
+            f = sorted(kids)[0]
+            owners = [l for l in m.by_kind(kind) if m.kids(l, f)]
+            if owners:
+                op["kids_from"] = {f: pick(r, owners)}
+                kids = {}
         if kids:
             op["kids"] = kids
             op["kids_style"] = r.choice(["list", "tuple", "iter"])
